@@ -52,6 +52,8 @@ def check_instance(rp):
     except Exception as e:  # noqa
         return None, None, None, None, None, [("oracle/data-raises", f"constraint data raised {type(e).__name__}: {e}", {})]
     n = d["n"]
+    if n > fh.SWEEP_MAX:
+        return None, None, None, None, None, []      # too large for the 2^n sweep (cannot happen for the generated sizes)
     S = fh.sufficient(rp)
     out = fh.qubo_out(rp, True, None)
     problems = []
